@@ -8,7 +8,7 @@ from lib.vlib import *
 META = {
     "property_id": "C08",
     "technique": "Coq proof (termination, coverage, determinism and sensitivity of the environment traversal) + reified-graph correspondence + edit-menu oracle on real loads "
-                 "+ collection-size/position sweep + value-space families (every representation boundary of every scalar kind, confusable kinds and shapes, host kinds) + schedule families (controlled interleavings, free goroutines, the runner; race detector)",
+                 "+ collection-size/position sweep + value-space families (every representation boundary of every scalar kind, confusable kinds and shapes, host kinds) + schedule families (controlled interleavings, free goroutines, the runner; race detector) + process-history family (every fingerprint after failed and successful computations in the same process = the one computed alone in a fresh process; fault injection at every depth of the pickle)",
     "level_text": "Theorems (Coq, all graphs): fingerprint_terminates (the traversal done by recursionPickler/envPickler under the "
                   "encoder's memo terminates on every function graph, recursion and mutual recursion included); "
                   "fingerprint_covers_reachable (the code of every reachable function is in the fingerprint); "
@@ -33,13 +33,18 @@ META = {
                   "Value space (one process): a pool of values -- integers +-(2^k-1), +-2^k, +-(2^k+1) for every k at which the codec, the interpreter or a machine word changes representation (7..256; thorough ..20000) "
                   "and seeded random integers of 1-260 bits with the relatives a lossy representation would identify with them (successor, negation, same low 64/32 bits, decimal prefix and extension, top bit cleared); floats at the "
                   "zero/denormal/overflow/2^53 borders one ulp apart, infinities, NaN, next to the integers of the same numeric value; strings and bytes (empty, NUL, newline, quotes, opcode look-alikes, 1-4 byte UTF-8, prefixes and one-byte "
-                  "extensions, lengths 254-257, seeded random with bit flip / truncation / extension); None/False/0/0.0/''/()/[]/{}/set() and other confusable kinds and shapes; builtins, bound methods, modules, labels, paths, ranges -- "
+                  "extensions, lengths 254-257, seeded random with bit flip / truncation / extension); None/False/0/0.0/''/()/[]/{}/set() and other confusable kinds and shapes; builtins, bound methods, modules, labels, paths, ranges, the views of a string / of bytes (codepoints, codepoint_ords, elems, elem_ords) next to each other, to the empty ones and to the lists of their elements -- "
                   "each referenced by functions of identical code through 8 routes (captured, default, element of a captured list / tuple / set, dict value, dict key, nested): any two targets of a route that reference different values "
                   "(decided on the live objects) have different fingerprints, equal text re-loaded gives equal ones, functionEnv succeeds; and one load per value of a selection of a project referencing it as a global, a literal, "
                   "a literal default, a global of a load()ed file, in a global list, as a dict key: per route the fingerprints of all these edits of the project text are pairwise different. "
                   "Schedules: the fingerprint of a target is the one computed alone when another target is fingerprinted inside every single write of its pickling, when all "
                   "targets are fingerprinted at once by one goroutine each, and when the real runner builds them as independent dependencies (records = stamps computed alone, a fresh load "
-                  "finds them up to date); the race detector reports no memory shared between two targets' fingerprint computations.",
+                  "finds them up to date); the race detector reports no memory shared between two targets' fingerprint computations. "
+                  "Process history: for a project of good targets (recursion sharing a builtin, mutual recursion, aliases, defaults, closures, cyclic and >1000-element data, modules, target references, same-named closures), "
+                  "targets whose fingerprint FAILS part-way (a predeclared value of the embedding program whose j-th attribute cannot be read while armed, placed as default / captured / predeclared / nested global / inside a late helper; an unpicklable value) "
+                  "and targets referencing each string/bytes view: the stamp, the functionEnv value (sharing included) and the upToDate verdict against the records of a build of the previous text are, after every fault source "
+                  "(alone and in pairs) before every target, after seeded random histories (failures, fingerprints, re-Load, GC, other goroutine, a goroutine failing at the same time) and through Run(failing) then Run(good) + fresh load, "
+                  "exactly the ones computed alone, first thing in a fresh process; an armed computation returns an error (never a value, never a crash); every view of a string or of bytes can be fingerprinted.",
     "level_note": "Trusted: Coq kernel; the model abstracts values to the function objects they mention (byte-level codec = C07) and a "
                   "function's own payload (bytecode, constants, names, non-function values) to one code identity, so model-level "
                   "sensitivity is sensitivity to that identity and to the reference structure; a memo reference is modelled by the ordinal "
@@ -157,7 +162,10 @@ def run(ctx):
                             "pairwise different per route. "
                             "Schedules: k independent targets each referencing a value of every codec kind (all values distinct): target B fingerprinted inside EVERY write of target A's pickling, "
                             "one goroutine per target fingerprinting at once, the real runner building a target that depends on all k then a fresh load; each must give the fingerprints computed alone; "
-                            "the same once more under the race detector" % (len({c[0] for c in cases if not c[0].startswith(FAMILIES)}), values_info.get("pool", 0),
+                            "the same once more under the race detector. "
+                            "Process history: one project (c08HistText: 12 good targets, 5 fuse targets x 4 fuse attributes + 1 unpicklable = 21 fault sources, 6 string/bytes views x 2 routes), reference = one fresh process per target; "
+                            "H0 every target once in a seeded order, H1 every fault source (half the time after a second one) before every good and every disarmed fuse target, H2 1500 (thorough 20000) seeded random steps, "
+                            "H3 6 (30) engine rounds; every observation compared with the reference" % (len({c[0] for c in cases if not c[0].startswith(FAMILIES)}), values_info.get("pool", 0),
                                                                                ", ".join("%s %d" % kv for kv in sorted(values_info.get("pool_classes", {}).items())), values_info.get("edit_loads", 0)))
     ctx.coverage["correspondence"]["distribution"] = {"programs": len({c[0] for c in cases if not c[0].startswith(FAMILIES)}),
                                                       "edits": len([c for c in cases if not c[0].startswith(FAMILIES)]), "graphs": len(graphs),
